@@ -18,6 +18,8 @@ type HTMLGenConfig struct {
 	Doctype  int // 0: html5, 1: legacy, 2: none, 3: late (after a comment)
 	Colons   bool
 	Wide     bool // some elements get 17-60 children / many attributes
+	Deep     int  // > 0: that many nested elements followed by a sibling (counter widths)
+	LeadWS   int  // > 0: that many white-space bytes before the doctype (sniff windows)
 }
 
 func DrawHTMLConfig(t *simkit.Tape) HTMLGenConfig {
@@ -30,6 +32,12 @@ func DrawHTMLConfig(t *simkit.Tape) HTMLGenConfig {
 	c.Colons = t.Bool(1, 3)
 	c.Doctype = t.Pick(8, 2, 1, 1)
 	c.Wide = t.Bool(1, 6)
+	if t.Bool(1, 25) {
+		c.Deep = []int{130, 256, 257, 300, 511, 513}[t.Draw(6)]
+	}
+	if t.Bool(1, 25) {
+		c.LeadWS = []int{500, 1016, 1024, 1025, 4096, 5000}[t.Draw(6)]
+	}
 	return c
 }
 
@@ -39,7 +47,7 @@ var htmlRaw = []string{"script", "style", "textarea", "title", "noscript", "ifra
 var htmlTable = []string{"table", "tbody", "tr", "td", "th", "caption", "colgroup", "col", "thead"}
 var htmlForeign = []string{"svg", "math", "g", "circle", "path", "mi", "mo", "foreignObject", "desc", "annotation-xml"}
 var htmlAttrNames = []string{"id", "class", "href", "title", "data-x", "style", "lang"}
-var htmlNSAttrNames = []string{"xmlns", "xmlns:xlink", "xmlns:x", "xlink:href", "xml:lang", "x:y", "xlink:type"}
+var htmlNSAttrNames = []string{"xmlns", "xmlns:xlink", "xmlns:x", "xlink:href", "xml:lang", "x:y", "xlink:type", "v-on:update:model-value", "a:b:c", "v-bind:xlink:href"}
 var htmlTexts = []string{"hello", " ", "a &amp; b", "&lt;x&gt;", "x<y", "1 > 0", "é😀", "&nbsp;", "\n", "&#65;&#x42;", "&unknown;", "text with  spaces", "]]>", "--", "a\x00b"}
 
 type htmlGen struct {
@@ -122,7 +130,7 @@ func (g *htmlGen) element(depth int) {
 	}
 	name := pool[g.t.Draw(len(pool))]
 	if g.cfg.Colons && g.t.Bool(1, 8) {
-		name = []string{"a:b", "x:div", "svg:g"}[g.t.Draw(3)]
+		name = []string{"a:b", "x:div", "svg:g", "w:sdt:content"}[g.t.Draw(4)]
 	}
 	if g.t.Bool(1, 10) {
 		name = strings.ToUpper(name)
@@ -155,6 +163,9 @@ func (g *htmlGen) element(depth int) {
 // GenHTML draws an HTML page as text.
 func GenHTML(t *simkit.Tape, cfg HTMLGenConfig) []byte {
 	g := &htmlGen{t: t, cfg: cfg}
+	for i := 0; i < cfg.LeadWS; i++ {
+		g.b.WriteByte(" \n\t\r\f"[t.Pick(6, 2, 1, 1, 1)])
+	}
 	switch cfg.Doctype {
 	case 0:
 		g.b.WriteString([]string{"<!DOCTYPE html>", "<!doctype html>", "<!DOCTYPE html>\n"}[t.Draw(3)])
@@ -177,6 +188,13 @@ func GenHTML(t *simkit.Tape, cfg HTMLGenConfig) []byte {
 		g.content(1)
 		g.b.WriteString("</body></html>")
 	case 1:
+		if cfg.Deep > 0 {
+			tag := []string{"div", "span", "b", "section"}[t.Draw(4)]
+			g.b.WriteString(strings.Repeat("<"+tag+">", cfg.Deep))
+			g.b.WriteString("x")
+			g.b.WriteString(strings.Repeat("</"+tag+">", cfg.Deep))
+			g.b.WriteString("<p>after</p>")
+		}
 		g.content(1)
 	case 2:
 		g.b.WriteString("<html><body>")
